@@ -72,7 +72,7 @@ def _spec(i):
 
 
 NSPEC = 7
-MUTS = ['origin_ref', 'value', 'units', 'data', 'window', 'shape', 'dtype', 'add', 'chunks']
+MUTS = ['origin_ref', 'value', 'units', 'data', 'window', 'shape', 'dtype', 'add', 'chunks', 'pin']
 EVENTS = [f'F{i}' for i in range(NSPEC)] + ['RW'] + [f'M:{m}' for m in MUTS] + ['HC+', 'HC-', 'HCX']
 
 
@@ -130,6 +130,10 @@ def mutation_ops(m, spec=None):
         return [], {'data': {'$datadict': {'CH-B': S.arr_spec('float64', [3], [F64['two'], F64['n0'], F64['n0']])}}}
     if m == 'window':
         return [], {'from_idx': 1}
+    if m == 'pin':
+        # the user assigns the frame's INDEX-MAX - to the very value the previous write derived (3.0) - and writes fewer
+        # rows: what he assigned stays
+        return [{'op': 'set', 'h': 'F0', 'attr': 'index_max', 'part': 'value', 'value': 3.0}], {'to_idx': 2}
     if m == 'chunks':
         # other chunk sizes for the next write (the file must not depend on them, nor on those of earlier writes)
         return [], {'input_chunk_size': 1, 'output_chunk_size': 8192}
